@@ -65,6 +65,8 @@ def check(run: Run) -> None:
 
         def hook_call(self, n, env, fns):
             name = (dotted(n.func) or "").split(".")[-1]
+            if name == "simplify" and len(n.args) >= 1 and name not in self.functions:
+                return self.ev(n.args[0], env, fns)  # value-preserving
             if name in ("Abs", "abs") and len(n.args) == 1 and name not in self.functions:
                 v = self.ev(n.args[0], env, fns)
                 if isinstance(v, T) and not (v.op == "num" or (v.op == "neg" and v.args[0].op == "num")):
